@@ -31,7 +31,7 @@ sys.path.insert(0, REPO_SRC)
 sys.path.insert(0, os.path.dirname(os.path.abspath(__file__)))
 
 import mpservice.socket as S  # noqa: E402
-from sock_common import HandlerError, canon_digest, handle  # noqa: E402
+from sock_common import HandlerError, canon_digest, handle, handle_plain  # noqa: E402
 import sock_common  # noqa: E402
 
 LOG = sock_common.LOG
@@ -126,12 +126,14 @@ def run_sock(case):
 
         def payload(k):
             r = reqs[k]
-            return {'k': k, 'lat': r['lat'], 'err': r['err'], 'echo': r['echo'], 'raw': bool(r.get('raw')), 'body': bodies[k]}
+            return {'k': k, 'lat': r['lat'], 'err': ('call' if r['err'] and r.get('route') == '/p' else r['err']), 'echo': r['echo'],
+                    'raw': bool(r.get('raw')), 'body': bodies[k]}
 
         if case['mode'] == 'thread':
             install_spies(srv_tid)
             app = S.SocketApplication()
             app.add_route('/', handle)
+            app.add_route('/p', handle_plain)
             server = S.make_server(app, path=path, backlog=case.get('srv_backlog'))
 
             def srv_main():
@@ -181,7 +183,7 @@ def run_sock(case):
                         try:
                             # once a request has run into the hang bound the transport is broken: the remaining
                             # requests get a short bound, so that the case still reports in time
-                            y = client.request('/', payload(k), response_timeout=(ab / 1000 if ab else (1.0 if hung else HANG)))
+                            y = client.request(reqs[k].get('route', '/'), payload(k), response_timeout=(ab / 1000 if ab else (1.0 if hung else HANG)))
                         except concurrent.futures.TimeoutError:
                             if not ab:
                                 hung.append(k)
@@ -265,6 +267,7 @@ def run_sock(case):
 def run_server(path, backlog):
     app = S.SocketApplication()
     app.add_route('/', handle)
+    app.add_route('/p', handle_plain)
     server = S.make_server(app, path=path, backlog=backlog or None)
     asyncio.run(server.serve())
 
